@@ -29,8 +29,9 @@ fn odd_len(p: &mut dyn Pick) -> usize {
 
 /// one hostile field appended to `out`
 fn hostile_field(p: &mut dyn Pick, out: &mut Vec<u8>, v5: bool, keys: Option<&SessionKeys>, cookie: Option<&[u8]>, depth: u32) {
-    let kind = p.below("adv.field", 16);
+    let kind = p.below("adv.field", 19);
     match kind {
+        16..=18 => inner_length_field(p, out, v5, cookie),
         0 => {
             // well-formed unknown field
             let n = odd_len(p).min(300);
@@ -160,6 +161,118 @@ fn hostile_field(p: &mut dyn Pick, out: &mut Vec<u8>, v5: bool, keys: Option<&Se
             out.extend_from_slice(&p.bytes("adv.noise", n));
         }
     }
+}
+
+
+fn delta(p: &mut dyn Pick) -> i64 {
+    [0i64, 1, 2, 3, -1, -2, -3, 4, -4, -8, 16][p.below("adv.il_delta", 11) as usize]
+}
+
+fn rel(base: usize, d: i64) -> u16 {
+    (base as i64 + d).clamp(0, 0xffff) as u16
+}
+
+/// One field of a type whose value carries INNER lengths (authenticator: nonce and ciphertext
+/// length; NTS cookie: ciphertext length; reference-id request: offset), with a value length of
+/// any alignment and the inner lengths chosen relative to what is left of the value: exactly
+/// filling it, overshooting / undershooting it by 1..3 (or a word), zero.
+pub fn inner_length_field(p: &mut dyn Pick, out: &mut Vec<u8>, v5: bool, cookie: Option<&[u8]>) {
+    let v = [0usize, 1, 2, 3, 4, 5, 6, 7, 8, 9, 10, 11, 12, 13, 15, 16, 17, 19, 20, 21, 22, 23, 24, 25, 27, 36, 37, 38, 39, 40, 41, 43, 63, 70][p.below("adv.il_value", 34) as usize];
+    let mut value = p.bytes("adv.il_bytes", v);
+    let type_id = match p.below("adv.il_kind", 4) {
+        0 | 1 => {
+            // authenticator: nonce length, ciphertext length, nonce (padded), ciphertext (padded)
+            let rest = v.saturating_sub(4);
+            let (nl, cl) = match p.below("adv.il_shape", 4) {
+                // the nonce (nearly) fills the value
+                0 => (rel(rest, delta(p)), [0u16, 1, 4, 16][p.below("adv.il_cl", 4) as usize]),
+                // a nonce of some length, the ciphertext (nearly) fills what is left after it, padded or not
+                1 => {
+                    let n = p.below("adv.il_nl", rest as u64 + 1) as usize;
+                    (n as u16, rel(rest.saturating_sub(wire::up4(n)), delta(p)))
+                }
+                2 => {
+                    let n = p.below("adv.il_nl", rest as u64 + 1) as usize;
+                    (n as u16, rel(rest.saturating_sub(n), delta(p)))
+                }
+                // the padded nonce ends exactly at / just beyond the end, no ciphertext
+                _ => {
+                    let n = rest.saturating_sub(p.below("adv.il_back", 4) as usize);
+                    (n as u16, 0)
+                }
+            };
+            if v >= 2 {
+                value[0..2].copy_from_slice(&nl.to_be_bytes());
+            }
+            if v >= 4 {
+                value[2..4].copy_from_slice(&cl.to_be_bytes());
+            }
+            T_AUTH
+        }
+        2 => {
+            // cookie: key id (one the server knows, if we saw a cookie), ciphertext length, nonce, ciphertext
+            if let (Some(c), true) = (cookie, v >= 4) {
+                value[0..4].copy_from_slice(&c[0..4]);
+            }
+            if v >= 6 {
+                let ct = rel(v.saturating_sub(22), delta(p));
+                value[4..6].copy_from_slice(&ct.to_be_bytes());
+            }
+            T_COOKIE
+        }
+        _ => {
+            if v >= 2 {
+                let off = rel(512usize.saturating_sub(v), delta(p));
+                value[0..2].copy_from_slice(&off.to_be_bytes());
+            }
+            T_REFREQ
+        }
+    };
+    // declared length: exact (unaligned allowed in v5), or rounded the wrong way
+    let declared = match p.below("adv.il_declared", 5) {
+        0 | 1 | 2 => 4 + v,
+        3 => wire::up4(4 + v),
+        _ => (4 + v) & !3,
+    };
+    wire::put_raw_ef(out, type_id, declared as u16, &value);
+    // wire padding to the next word: usually present (the outer framing check passes), sometimes not
+    if p.below("adv.il_wirepad", 4) != 3 {
+        out.resize(wire::up4(out.len()), 0);
+    }
+}
+
+/// A minimal hostile datagram around inner-length fields: a header the parser accepts, at most a
+/// few well-formed fields, inner-length field(s), optionally a shape-valid authenticator after a
+/// hostile cookie (so that the server's cookie decoder is reached).
+pub fn forge_inner(p: &mut dyn Pick, to_server: bool, cookie: Option<&[u8]>) -> Vec<u8> {
+    let v5 = p.below("adv.fi_v5", 3) != 2;
+    let mut out = p.bytes("adv.header", wire::HEADER);
+    out[0] = ((if v5 { 5 } else { 4 }) << 3) | if to_server { 3 } else { 4 };
+    out[1] = if to_server { 0 } else { 1 + p.below("adv.stratum", 15) as u8 };
+    if v5 {
+        out[12] = p.below("adv.timescale", 4) as u8;
+        out[14] = 0;
+        out[15] = p.below("adv.flags", 8) as u8;
+    }
+    if p.below("adv.fi_uid", 2) == 1 {
+        let uid = p.bytes("adv.body", 32);
+        wire::put_ef(&mut out, T_UID, &uid, 16, v5);
+    }
+    if v5 && p.below("adv.fi_draft", 2) == 1 {
+        wire::put_ef(&mut out, T_DRAFT, wire::DRAFT_ID, 4, v5);
+    }
+    let n = 1 + p.below("adv.fi_n", 2);
+    for _ in 0..n {
+        inner_length_field(p, &mut out, v5, cookie);
+    }
+    if p.below("adv.fi_tail_auth", 2) == 1 {
+        // shape-valid authenticator: 16-byte nonce, 16..48 byte "ciphertext"
+        let ctl = 16 + 4 * p.below("adv.fi_ct", 9) as usize;
+        let mut body = vec![0u8, 16, 0, ctl as u8];
+        body.extend_from_slice(&p.bytes("adv.body", 16 + ctl));
+        wire::put_ef(&mut out, T_AUTH, &body, 0, v5);
+    }
+    out
 }
 
 /// A hostile datagram. `keys`: session keys the malicious peer legitimately holds (or None).
